@@ -170,223 +170,152 @@ def _replace_name(s, name, repl):
 
 
 # ----------------------------------------------------------------------------- SPLIT-CARRY (C17)
+def _sym_paths(ctx, cls, fn):
+    from ..symexpr import SymEval
+    return [r for r in SymEval(ctx.model, cls).run(fn) if not r.raised]
+
+
 def check_split_carry(ctx, R):
+    """facts on symbolic normal forms (temporaries, helper extraction, early returns, star-unpack, += are all
+    transparent):  S = (carry + read).split(delimiter);  emitted = ELEM(INIT(S)) + delimiter in a loop over INIT(S);
+    new carry = LAST(S), written before the first suspension;  without a delimiter the carry is carry + read"""
+    from ..symexpr import nf
     M = ctx.model
     cls = M.cls('streamz.sources', 'from_textfile')
     fn = cls.methods.get('_run')
     if fn is None:
         raise AnalysisError('anchor vanished: from_textfile._run')
     con = ctx.construct(fn)
-    defs = local_defs(fn.node)
-    splits = [n for n in own_nodes(fn.node) if isinstance(n, ast.Call) and isinstance(n.func, ast.Attribute)
-              and n.func.attr == 'split']
-    if len(splits) != 1:
-        raise AnalysisError('from_textfile._run: expected exactly one split(), found %d (unrecognised spelling)' % len(splits))
-    sp = splits[0]
-    # the carry field: the field that is assigned the tail
-    carry = None
-    stores = [n for n in own_nodes(fn.node) if isinstance(n, (ast.Assign, ast.AugAssign))]
-    fstores = []
-    for n in stores:
-        for t in (n.targets if isinstance(n, ast.Assign) else [n.target]):
-            for e in ([t] if not isinstance(t, (ast.Tuple, ast.List)) else t.elts):
-                e2 = e.value if isinstance(e, ast.Starred) else e
-                if self_field(e2) and isinstance(e2, ast.Attribute):
-                    fstores.append((n, e2))
-    fields = {self_field(t) for _, t in fstores}
+    paths = _sym_paths(ctx, cls, fn)
+    fields = {f for r in paths for f, v, s_, l in r.stores}
     if len(fields) != 1:
-        R.ob('SPLIT-CARRY', con, 'single-carry', False, 'expected exactly one carry field, found %s' % sorted(fields),
-             ctx.where(fn, fn.node.lineno))
+        R.ob('SPLIT-CARRY', con, 'single-carry', False, 'expected exactly one carry field written by the polling cycle, found %s'
+             % sorted(fields), ctx.where(fn, fn.node.lineno))
         return
     carry = fields.pop()
-    # (1) receiver of split = carry ++ new data, in that order; delimiter argument = self.delimiter
-    recv = sp.func.value
-    concat_ok = False
-    concat_store = None
-    read_names = {k for k, v in defs.items() if len(v) == 1 and v[0] is not None and isinstance(v[0], ast.Call)
-                  and isinstance(v[0].func, ast.Attribute) and v[0].func.attr in ('read', 'readline', 'readlines')}
+    B0 = 'self.' + carry
+    reads = set()
+    for r in paths:
+        for c, o in r.conds:
+            for m_ in __import__('re').findall(r'self\.\w+\.read(?:line)?\(\)', c.replace(' ', '')):
+                reads.add(m_)
+        for f, v, s_, l in r.stores:
+            for m_ in __import__('re').findall(r'self\.\w+\.read(?:line)?\(\)', nf(v)):
+                reads.add(m_)
+    if len(reads) != 1:
+        raise AnalysisError('from_textfile._run: cannot identify the read() whose data is split (found %s): unrecognised spelling'
+                            % sorted(reads))
+    RD = reads.pop()
+    CONCAT = '%s+%s' % (B0, RD)
+    S = '(%s).split(self.delimiter)' % CONCAT
+    emitting = [r for r in paths if r.emits]
+    if not emitting:
+        raise AnalysisError('from_textfile._run: no path emits (unrecognised spelling)')
+    bad = {}
 
-    def is_concat(v):
-        return isinstance(v, ast.BinOp) and isinstance(v.op, ast.Add) and self_field(v.left) == carry and \
-            isinstance(v.left, ast.Attribute) and isinstance(v.right, ast.Name) and v.right.id in read_names
+    def fail(tok, msg):
+        bad.setdefault(tok, msg)
 
-    if self_field(recv) == carry and isinstance(recv, ast.Attribute):
-        for n, t in fstores:
-            if isinstance(n, ast.Assign) and is_concat(n.value) and n.lineno < sp.lineno:
-                concat_ok, concat_store = True, n
-            if isinstance(n, ast.AugAssign) and isinstance(n.op, ast.Add) and isinstance(n.value, ast.Name) \
-                    and n.value.id in read_names and n.lineno < sp.lineno:
-                concat_ok, concat_store = True, n
-    elif is_concat(recv):
-        concat_ok = True
-    elif isinstance(recv, ast.Name) and len(defs.get(recv.id, [])) == 1 and is_concat(defs[recv.id][0]):
-        concat_ok = True
-    delim_ok = len(sp.args) == 1 and self_field(sp.args[0]) == 'delimiter' and not sp.keywords
-    R.ob('SPLIT-CARRY', con, 'split-receiver', concat_ok and delim_ok,
-         'split() is not applied to <carried buffer> + <newly read data> (in that order) with self.delimiter: %s' % src(sp),
-         ctx.where(fn, sp.lineno))
-    # (2) new carry = last element of the split
-    parts_name = None
-    for k, v in defs.items():
-        if len(v) == 1 and v[0] is sp:
-            parts_name = k
-    tail_ok, tail_detail = False, ''
-    tail_store = None
-    iter_expr_ok = None
-    for n, t in fstores:
-        if n is concat_store:
+    for r in emitting:
+        for data, md, susp, loop in r.emits:
+            if not loop:
+                fail('emit-each-piece-once-in-order', 'a piece is emitted outside the loop over the pieces')
+                continue
+            it = loop[-1][0].replace(' ', '')
+            if it != 'INIT(%s)' % S:
+                if S in it or 'split' in it:
+                    fail('emit-each-piece-once-in-order' if it.startswith(('reversed', 'sorted', 'set', 'REST', 'INIT(INIT')) or 'REST(' in it
+                         else 'split-receiver',
+                         'the emitting loop iterates %s; expected all pieces but the last of (carry + read).split(delimiter), in list order' % loop[-1][0])
+                else:
+                    fail('split-receiver', 'the emitting loop iterates %s, which is not the split of <carried buffer> + <newly read data>' % loop[-1][0])
+            elif nf(data) != 'ELEM(INIT(%s))+self.delimiter' % S:
+                fail('emit-each-piece-once-in-order', 'a piece is emitted as %s, not <piece> + self.delimiter' % src(data)[:80])
+            if md is not None:
+                fail('emit-each-piece-once-in-order', 'pieces are emitted with metadata')
+        if len(r.emits) != 1:
+            fail('emit-each-piece-once-in-order', 'a piece is emitted %d times per iteration' % len(r.emits))
+        if any(i not in r.awaited for i in range(len(r.emits))):
+            fail('emit-each-piece-once-in-order', 'the emission of a piece is not awaited before the next one')
+        st = [(v, s_) for f, v, s_, l in r.stores if f == carry]
+        if not st or nf(st[-1][0]) != 'LAST(%s)' % S:
+            fail('carry-is-last-piece', 'after emitting, the carried buffer is %s; expected the last element of the split'
+                 % (src(st[-1][0])[:80] if st else 'unchanged'))
+        if any(s_ > 0 for v, s_ in st):
+            fail('carry-written-once-before-suspension', 'the carried buffer is written after a suspension of the polling cycle')
+        first_emit_susp = min(e[2] for e in r.emits)
+        if any(l for f, v, s_, l in r.stores if f == carry):
+            fail('carry-written-once-before-suspension', 'the carried buffer is written inside the emitting loop')
+    for r in paths:
+        if any(c in ('<continue>', '<break>') for c, o in r.conds):
+            fail('emit-each-piece-once-in-order', 'the emitting loop can skip pieces (break/continue)')
+        if r.emits:
             continue
-        v = n.value if isinstance(n, ast.Assign) else None
-        tail_store = n
-        if isinstance(v, ast.Call) and isinstance(v.func, ast.Attribute) and v.func.attr == 'pop' \
-                and isinstance(v.func.value, ast.Name) and v.func.value.id == parts_name:
-            a = [src(x) for x in v.args]
-            tail_ok = a in ([], ['-1'])
-            tail_detail = 'carry = %s' % src(v)
-            iter_expr_ok = lambda it: isinstance(it, ast.Name) and it.id == parts_name    # noqa: E731
-        elif isinstance(v, ast.Subscript) and isinstance(v.value, ast.Name) and v.value.id == parts_name \
-                and src(v.slice) == '-1':
-            tail_ok = True
-            iter_expr_ok = lambda it: isinstance(it, ast.Subscript) and src(it) == '%s[:-1]' % parts_name    # noqa: E731
-        elif isinstance(n, ast.Assign) and isinstance(n.targets[0], (ast.Tuple, ast.List)) and n.value is sp:
-            elts = n.targets[0].elts
-            tail_ok = len(elts) == 2 and isinstance(elts[0], ast.Starred) and elts[1] is t
-            if tail_ok:
-                parts_name = elts[0].value.id
-                iter_expr_ok = lambda it: isinstance(it, ast.Name) and it.id == parts_name    # noqa: E731
-        else:
-            tail_detail = 'carry = %s' % (src(v) if v is not None else src(n))
-    R.ob('SPLIT-CARRY', con, 'carry-is-last-piece', tail_ok,
-         'the new carried buffer is not the last element of the split (%s)' % tail_detail,
-         ctx.where(fn, tail_store.lineno if tail_store is not None else sp.lineno))
-    # (3) every other element emitted once, in list order, delimiter re-appended
-    loops = [l for l in own_nodes(fn.node) if isinstance(l, (ast.For, ast.AsyncFor))]
-    emit_loop = [l for l in loops if any(isinstance(x, ast.Call) and isinstance(x.func, ast.Attribute)
-                                         and x.func.attr in ('_emit', 'emit') for x in ast.walk(l))]
-    ok3, d3 = True, ''
-    if len(emit_loop) != 1:
-        ok3, d3 = False, 'expected one loop emitting the pieces, found %d' % len(emit_loop)
-    else:
-        l = emit_loop[0]
-        if iter_expr_ok is None or not iter_expr_ok(l.iter):
-            ok3, d3 = False, 'the emitting loop iterates %s, not the remaining pieces in list order' % src(l.iter)
-        ems = [x for x in ast.walk(l) if isinstance(x, ast.Call) and isinstance(x.func, ast.Attribute)
-               and x.func.attr in ('_emit', 'emit')]
-        if len(ems) != 1:
-            ok3, d3 = False, 'a piece is emitted %d times' % len(ems)
-        else:
-            d = ems[0].args[0] if ems[0].args else None
-            var = l.target.id if isinstance(l.target, ast.Name) else None
-            if not (isinstance(d, ast.BinOp) and isinstance(d.op, ast.Add) and isinstance(d.left, ast.Name)
-                    and d.left.id == var and self_field(d.right) == 'delimiter'):
-                ok3, d3 = False, 'a piece is emitted as %s, not <piece> + self.delimiter' % src(d)
-        for x in ast.walk(l):
-            if isinstance(x, (ast.Break, ast.Continue, ast.Return)):
-                ok3, d3 = False, 'the emitting loop can skip pieces (%s)' % type(x).__name__.lower()
-            if isinstance(x, ast.If):
-                ok3, d3 = False, 'emission of a piece is conditional'
-        if tail_store is not None and tail_store.lineno > l.lineno:
-            ok3, d3 = False, 'the carry is taken after the pieces were emitted'
-    R.ob('SPLIT-CARRY', con, 'emit-each-piece-once-in-order', ok3, d3,
-         ctx.where(fn, emit_loop[0].lineno if emit_loop else fn.node.lineno))
-    # (4)+(5) path facts: carry writes happen before the first suspension; at most concat + tail; on the
-    # no-delimiter path the carry holds the concatenation and nothing is emitted
-    bad, n = None, 0
-    d4 = ''
-    for pst, status in ctx.paths(fn, cls):
-        evs = pst.events
-        if is_failure(evs, status):
-            continue
-        n += 1
-        sts = [i for i, e in enumerate(evs) if e.kind == 'ST' and e.a == carry]
-        sus = next((i for i, e in enumerate(evs) if e.kind == 'SUS'), None)
-        ems = [i for i, e in enumerate(evs) if e.kind == 'EM']
-        if sus is not None and any(i > sus for i in sts):
-            bad, d4 = evs, 'the carried buffer is written after a suspension of the polling cycle'
-        if len(sts) > 2:
-            bad, d4 = evs, 'the carried buffer is written %d times in one cycle' % len(sts)
-        got_data = any(e.kind == 'COND' and e.b is True and e.c is None and e.x.get('node') is not None and
-                       isinstance(e.x['node'], ast.Name) and e.x['node'].id in read_names for e in evs)
-        if got_data and not sts:
-            bad, d4 = evs, 'data was read but the carried buffer was not extended'
-        if ems and len(sts) != 2:
-            bad, d4 = evs, 'pieces are emitted without re-assigning the carried buffer to the tail'
-        if not ems and got_data and len(sts) == 1 and evs[sts[0]].x.get('empty'):
-            bad, d4 = evs, 'the carried buffer is emptied without emitting'
-    R.ob('SPLIT-CARRY', con, 'carry-written-once-before-suspension', bad is None and n > 0, d4,
-         ctx.where(fn, fn.node.lineno), fmt_path(bad) if bad else None, n)
-    # the "in" test that skips the split must be on the same delimiter/carry (or absent)
-    tests = [n_ for n_ in own_nodes(fn.node) if isinstance(n_, ast.If) and any(x is sp for s in n_.body for x in ast.walk(s))]
-    okt = all(norm(t.test, {}) in ('self.delimiter in self.%s' % carry, src(t.test)) and
-              (src(t.test) == 'self.delimiter in self.%s' % carry or isinstance(t.test, ast.Name)) for t in tests)
-    R.ob('SPLIT-CARRY', con, 'split-guard', okt, 'the split is guarded by a test other than "delimiter in carry": %s'
-         % [src(t.test) for t in tests], ctx.where(fn, tests[-1].lineno if tests else sp.lineno))
+        got_data = any(c.replace(' ', '') == RD and o for c, o in r.conds) or any(
+            c.replace(' ', '') == 'not' + RD and not o for c, o in r.conds)
+        st = [(v, s_) for f, v, s_, l in r.stores if f == carry]
+        if got_data:
+            if not st:
+                fail('carry-written-once-before-suspension', 'data was read but the carried buffer was not extended')
+            elif nf(st[-1][0]) not in (CONCAT, 'LAST(%s)' % S):
+                fail('split-receiver', 'without a complete record the carried buffer becomes %s; expected <carried buffer> + <newly read data>'
+                     % src(st[-1][0])[:80])
+        elif st and nf(st[-1][0]) != B0:
+            fail('carry-written-once-before-suspension', 'the carried buffer is changed although nothing was read')
+    for tok in ('split-receiver', 'carry-is-last-piece', 'emit-each-piece-once-in-order', 'carry-written-once-before-suspension'):
+        R.ob('SPLIT-CARRY', con, tok, tok not in bad, bad.get(tok, ''), ctx.where(fn, fn.node.lineno), None, len(paths))
+    R.ob('SPLIT-CARRY', con, 'single-carry', True)
 
 
 # ----------------------------------------------------------------------------- SEEN-SET (C17)
 def check_seen_set(ctx, R):
+    from ..symexpr import nf
     M = ctx.model
     cls = M.cls('streamz.sources', 'filenames')
     fn = cls.methods.get('_run')
     if fn is None:
         raise AnalysisError('anchor vanished: filenames._run')
     con = ctx.construct(fn)
-    defs = local_defs(fn.node)
-    loops = [l for l in own_nodes(fn.node) if isinstance(l, (ast.For, ast.AsyncFor)) and any(
-        isinstance(x, ast.Call) and isinstance(x.func, ast.Attribute) and x.func.attr in ('_emit', 'emit') for x in ast.walk(l))]
-    if len(loops) != 1:
-        raise AnalysisError('filenames._run: expected one emitting loop, found %d (unrecognised spelling)' % len(loops))
-    l = loops[0]
-    it = l.iter
-    sorted_ok = isinstance(it, ast.Call) and isinstance(it.func, ast.Name) and it.func.id == 'sorted' and len(it.args) == 1 \
-        and not any(k.arg == 'reverse' for k in it.keywords) and not any(k.arg == 'key' for k in it.keywords)
-    cand = norm(it.args[0], defs) if sorted_ok else norm(it, defs)
-    cand_ok = cand.replace(' ', '') in ('(set(glob(self.path))-self.seen)',)
-    if not cand_ok:
-        # accept set(glob(..)).difference(self.seen)
-        cand_ok = cand.replace(' ', '') in ('set(glob(self.path)).difference(self.seen)',)
-    R.ob('SEEN-SET', con, 'sorted-candidates', sorted_ok and cand_ok,
-         'the loop iterates %s; expected sorted(set(glob(self.path)) - self.seen)' % src(it), ctx.where(fn, l.lineno))
-    var = l.target.id if isinstance(l.target, ast.Name) else None
-    bad, n = None, 0
-    d = ''
-    for pst, status in ctx.paths(fn, cls):
-        evs = pst.events
-        if is_failure(evs, status):
-            continue
-        its = [i for i, e in enumerate(evs) if e.kind == 'ITER' and e.line == l.lineno]
-        bounds = its + [len(evs)]
-        for a, b in zip(bounds, bounds[1:]):
-            seg = evs[a:b]
-            ems = [i for i, e in enumerate(seg) if e.kind == 'EM']
-            if not ems:
-                if any(e.kind in ('LOOPCUT',) for e in seg):
-                    continue
-                bad, d = evs, 'an iteration emits nothing'
+    paths = _sym_paths(ctx, cls, fn)
+    emitting = [r for r in paths if r.emits]
+    if not emitting:
+        raise AnalysisError('filenames._run: no path emits (unrecognised spelling)')
+    WANT = ('sorted(set(glob(self.path))-self.seen)',)
+    bad = {}
+    for r in emitting:
+        for i, (data, md, susp, loop) in enumerate(r.emits):
+            it = loop[-1][0].replace(' ', '') if loop else None
+            if it not in WANT:
+                bad.setdefault('sorted-candidates', 'the loop iterates %s; expected sorted(set(glob(self.path)) - self.seen)'
+                               % (loop[-1][0] if loop else 'nothing'))
                 continue
-            n += 1
-            adds = [i for i, e in enumerate(seg) if e.kind == 'ST' and e.a == 'seen' and e.c == 'add']
-            sus = next((i for i, e in enumerate(seg) if e.kind == 'SUS'), None)
-            if len(ems) != 1:
-                bad, d = evs, 'a path is emitted %d times' % len(ems)
-            elif not adds or (sus is not None and adds[0] > sus):
-                bad, d = evs, 'the path is not recorded in self.seen before its emission is awaited'
-            else:
-                dn = seg[ems[0]].x.get('data')
-                av = seg[adds[0]].x.get('value')
-                if not (isinstance(dn, ast.Name) and dn.id == var and isinstance(av, ast.Name) and av.id == var):
-                    bad, d = evs, 'the emitted / recorded value is not the loop variable'
-    R.ob('SEEN-SET', con, 'record-before-await', bad is None and n > 0, d, ctx.where(fn, l.lineno),
-         fmt_path(bad) if bad else None, n)
+            if nf(data) != 'ELEM(%s)' % it:
+                bad.setdefault('record-before-await', 'the emitted value is %s, not the loop variable' % src(data)[:60])
+            adds = [(c, s_) for c, s_, l in r.calls if nf(c) == 'self.seen.add(ELEM(%s))' % it and l and l[-1][0].replace(' ', '') == it]
+            if not adds:
+                bad.setdefault('record-before-await', 'the path is not recorded in self.seen')
+            elif min(s_ for c, s_ in adds) > susp:
+                bad.setdefault('record-before-await', 'the path is recorded in self.seen only after its emission was awaited')
+            if i not in r.awaited:
+                bad.setdefault('record-before-await', 'the emission of a path is not awaited')
+        if len(r.emits) != 1:
+            bad.setdefault('record-before-await', 'a path is emitted %d times' % len(r.emits))
+    for r in paths:
+        if any(c in ('<continue>', '<break>') for c, o in r.conds):
+            bad.setdefault('sorted-candidates', 'the loop can skip paths (break/continue)')
+    for tok in ('sorted-candidates', 'record-before-await'):
+        R.ob('SEEN-SET', con, tok, tok not in bad, bad.get(tok, ''), ctx.where(fn, fn.node.lineno), None, len(paths))
     removes = []
-    for mname, m in cls.methods.items():
-        if mname == '__init__':
+    for f in [x for x in cls.module.all_funcs if x.cls is cls]:
+        if f.name == '__init__':
             continue
-        for x in own_nodes(m.node):
+        for x in own_nodes(f.node):
             if isinstance(x, ast.Call) and isinstance(x.func, ast.Attribute) and x.func.attr in (
-                    'remove', 'discard', 'clear', 'pop', 'difference_update') and self_field(x.func.value) == 'seen':
-                removes.append((m, x))
-            if isinstance(x, ast.Assign) and any(self_field(t) == 'seen' for t in x.targets):
-                removes.append((m, x))
+                    'remove', 'discard', 'clear', 'pop', 'difference_update', 'intersection_update') and self_field(x.func.value) == 'seen':
+                removes.append((f, x))
+            if isinstance(x, (ast.Assign, ast.AugAssign)) and any(
+                    self_field(t) == 'seen' for t in (x.targets if isinstance(x, ast.Assign) else [x.target])):
+                if not (isinstance(x, ast.AugAssign) and isinstance(x.op, ast.BitOr)):
+                    removes.append((f, x))
     R.ob('SEEN-SET', con, 'monotone', not removes, 'self.seen is shrunk or re-assigned outside __init__ (%s)'
-         % ', '.join(m.name for m, _ in removes), ctx.where(removes[0][0], removes[0][1].lineno) if removes else None)
+         % ', '.join(f.name for f, _ in removes), ctx.where(removes[0][0], removes[0][1].lineno) if removes else None)
